@@ -11,6 +11,7 @@ from facts import walk, strip, canon, const_value
 from frontend import AnalysisBroken
 
 TO_FREE = None
+UNKNOWN_PUT, UNKNOWN_GET = 98, 99
 
 
 def check(ctx, fn, rule, to_free_bit, req_null):
@@ -22,16 +23,20 @@ def check(ctx, fn, rule, to_free_bit, req_null):
     n = 0
     bad = None
     bad_status = None
+    bad_unknown = None
     for nput in range(0, 4):
         for nget in range(0, 3):
             put_ids = [2 * (k + 1) for k in range(nput)]
             get_ids = [2 * k + 1 for k in range(nget)]
-            pool = put_ids + get_ids + [req_null]
+            pool = put_ids + get_ids + [req_null, UNKNOWN_PUT, UNKNOWN_GET]
             for ln in range(1, 4):
                 for ids in itertools.product(pool, repeat=ln):
                     real = [x for x in ids if x != req_null]
                     if len(set(real)) != len(real):
                         continue                      # duplicates are a caller error
+                    unknown = [x for x in real if x in (UNKNOWN_PUT, UNKNOWN_GET)]
+                    if unknown and (nput + nget == 0 or len(unknown) == len(real)):
+                        continue                      # only the mixture of known and unknown ids is of interest
                     for with_status in (0, 1):
                         env = {"$dyn": True, "num_reqs": ln, "ncp->numLeadPutReqs": nput, "ncp->numLeadGetReqs": nget,
                                "ncp->numPutReqs": nput, "ncp->numGetReqs": nget, "ncp->put_list": 7000, "ncp->get_list": 8000,
@@ -58,6 +63,18 @@ def check(ctx, fn, rule, to_free_bit, req_null):
                         n += 1
                         marked = {x for k, x in enumerate(put_ids) if env.get("ncp->put_lead_list[%d].flag" % k, 0) & to_free_bit}
                         marked |= {x for k, x in enumerate(get_ids) if env.get("ncp->get_lead_list[%d].flag" % k, 0) & to_free_bit}
+                        if unknown:
+                            # a list naming an id that is not pending: shortcut lists (as long as a whole queue, no status array)
+                            # are the caller's statement that it names the whole queue; every other list must be refused whole
+                            whole = (not with_status) and (ln == nput + nget or (nget == 0 and ln == nput) or (nput == 0 and ln == nget))
+                            if not whole and bad_unknown is None:
+                                if not env.get("$ret"):
+                                    bad_unknown = (put_ids, get_ids, ids, "the call answers NC_NOERR")
+                                elif marked:
+                                    bad_unknown = (put_ids, get_ids, ids, "the call is refused but request(s) %s stay marked for "
+                                                   "completion: they can no longer be waited for by id and are discarded, unwritten, by "
+                                                   "the next call that compacts the queue" % sorted(marked))
+                            continue
                         if marked != set(real) and bad is None:
                             bad = (put_ids, get_ids, ids, sorted(marked))
                         if with_status and marked == set(real) and bad_status is None:
@@ -88,4 +105,12 @@ def check(ctx, fn, rule, to_free_bit, req_null):
                  (put_ids, get_ids, show_ids, x, got, want), fn=fn, line=fn.line, inst=inst)
     elif bad is None:
         ctx.ok(rule, inst, "every selected request reports into the slot of the list entry that names it")
+    inst = "%s:unknown" % fn.name
+    if bad_unknown:
+        put_ids, get_ids, ids, why = bad_unknown
+        show_ids = ["NC_REQ_NULL" if y == req_null else ("<unknown id %d>" % y if y in (UNKNOWN_PUT, UNKNOWN_GET) else y) for y in ids]
+        ctx.fail(rule, fn.name, "unknown", "pending put ids %s, get ids %s, waiting for %s (one id is not pending): %s" %
+                 (put_ids, get_ids, show_ids, why), fn=fn, line=fn.line, inst=inst)
+    else:
+        ctx.ok(rule, inst, "a list that names an id which is not pending is refused and leaves no request marked")
     return n
